@@ -325,7 +325,12 @@ func checkC05(R *Run) {
 						nGuardSites++
 					} else if pf.args[1] != nil {
 						// a variable that holds one of several privilege numbers: all of them are tested
-						for _, k := range phiConsts(pf.args[1], 0) {
+						ks := phiConsts(pf.args[1], 0)
+						if ks == nil {
+							// a number that reaches the test through local struct variables (taken from a constant table)
+							ks = possibleInts(f2, pf.args[1])
+						}
+						for _, k := range ks {
 							used[int(k)] = P.ipos(pf.call)
 						}
 						nGuardSites++
@@ -624,4 +629,34 @@ func (R *Run) ruleAuthorizeSound() {
 		R.check(okAll, "authorize-sound", fname(fn), P.pos(fn.Pos()), "returns false for nil account, else Account.Access.IsSet(access)", "Authorize no longer has the shape 'nil account → false, else Account.Access.IsSet(access)': "+why)
 	}
 
+}
+
+// possibleInts: the constants the engine finds v to be on the paths that reach its block; nil when some path reaches
+// it with v unknown.
+func possibleInts(fn *ssa.Function, v ssa.Value) []int64 {
+	ins, ok := stripConv(v).(ssa.Instruction)
+	if !ok || ins.Block() == nil || len(fn.Blocks) == 0 || ins.Parent() != fn {
+		return nil
+	}
+	seen := map[int64]bool{}
+	unknown := false
+	explore([]psItem{{fn.Blocks[0], nilState{}}}, nil, false, func(b *ssa.BasicBlock, st nilState) bool {
+		if b == ins.Block() {
+			if k, ok := transferCells(b, st).intOf(v); ok {
+				seen[k] = true
+			} else {
+				unknown = true
+			}
+		}
+		return true
+	})
+	if unknown || len(seen) == 0 {
+		return nil
+	}
+	var out []int64
+	for k := range seen {
+		out = append(out, k)
+	}
+	sort.Slice(out, func(i, j int) bool { return out[i] < out[j] })
+	return out
 }
